@@ -321,10 +321,13 @@ async fn erased_handles() -> Out {
     t.tell(Msg { id: 1, sleep_ms: 100 }).await.unwrap();
     tokio::time::sleep(Duration::from_millis(5)).await;
     t.tell(Msg { id: 2, sleep_ms: 0 }).await.unwrap(); // full
+    let d0 = dl();
     let tt = t.tell_with_timeout(Msg { id: 3, sleep_ms: 0 }, Duration::from_millis(10)).await;
     if ok.is_ok() && !matches!(tt, Err(rsactor::Error::Timeout { .. })) { ok = Err(format!("erased tell_with_timeout on a full mailbox returned {tt:?}")); }
     let at = a.ask_with_timeout(Msg { id: 4, sleep_ms: 0 }, Duration::from_millis(10)).await;
     if ok.is_ok() && !matches!(at, Err(rsactor::Error::Timeout { .. })) { ok = Err(format!("erased ask_with_timeout on a full mailbox returned {at:?}")); }
+    // same observable effect as the inherent methods: each timed-out send is exactly one dead letter
+    if ok.is_ok() && dl_enabled() && dl() != d0 + 2 { ok = Err(format!("two timed-out sends through erased handlers recorded {} dead letters, the inherent methods record 2", dl() - d0)); }
     tokio::time::sleep(Duration::from_millis(200)).await;
     let av = a.ask(Msg { id: 5, sleep_ms: 0 }).await;
     if ok.is_ok() && !matches!(av, Ok(50)) { ok = Err(format!("erased ask returned {av:?}")); }
@@ -364,10 +367,12 @@ async fn identity_and_liveness() -> Out {
 }
 
 fn blocking_api() -> Out {
+    // every failed check is reported, tagged `[Cxx,..]` with the properties it speaks for (the check of a property counts a
+    // failure only if the property is in the tag)
     let rt = tokio::runtime::Builder::new_multi_thread().worker_threads(2).enable_all().build().unwrap();
     let log = new_log();
     let (r, h) = rt.block_on(async { spawn::<Probe>(args(&log)) });
-    let mut ok: Result<(), String> = Ok(());
+    let mut bad: Vec<String> = Vec::new();
     let r2 = r.clone();
     let th = std::thread::spawn(move || {
         let a = r2.blocking_tell(Msg { id: 1, sleep_ms: 0 }, None);
@@ -377,16 +382,16 @@ fn blocking_api() -> Out {
         (a, b, c, d)
     });
     let (a, b, c, d) = th.join().unwrap();
-    if !(a.is_ok() && matches!(b, Ok(20)) && c.is_ok() && matches!(d, Ok(40))) { ok = Err(format!("blocking variants: {a:?} {b:?} {c:?} {d:?}")); }
+    if !(a.is_ok() && matches!(b, Ok(20)) && c.is_ok() && matches!(d, Ok(40))) { bad.push(format!("[C17,C03] blocking variants: {a:?} {b:?} {c:?} {d:?}")); }
     rt.block_on(async { r.stop().await.unwrap(); let _ = join(h).await; });
     let c0 = dl();
     let r3 = r.clone();
     let e = std::thread::spawn(move || (r3.blocking_tell(Msg { id: 5, sleep_ms: 0 }, None), r3.blocking_ask(Msg { id: 6, sleep_ms: 0 }, None))).join().unwrap();
-    if ok.is_ok() && !(matches!(e.0, Err(rsactor::Error::Send { .. })) && matches!(e.1, Err(rsactor::Error::Send { .. }))) { ok = Err(format!("blocking sends to a stopped actor: {e:?}")); }
-    if ok.is_ok() && dl_enabled() && dl() != c0 + 2 { ok = Err(format!("blocking failures recorded {} dead letters, expected 2", dl() - c0)); }
+    if !(matches!(e.0, Err(rsactor::Error::Send { .. })) && matches!(e.1, Err(rsactor::Error::Send { .. }))) { bad.push(format!("[C17] blocking sends to a stopped actor: {e:?}")); }
+    if dl_enabled() && dl() != c0 + 2 { bad.push(format!("[C13,C17] blocking failures recorded {} dead letters, expected 2", dl() - c0)); }
     let tr = trace(&log);
-    if ok.is_ok() && handled(&tr) != vec![1, 2, 3, 4] { ok = Err(format!("handled {:?}", handled(&tr))); }
-    Out { name: "blocking_api", ok: ok.is_ok(), detail: ok.err().unwrap_or_default(), trace: tr }
+    if handled(&tr) != vec![1, 2, 3, 4] { bad.push(format!("[C17,C01,C02] handled {:?}", handled(&tr))); }
+    Out { name: "blocking_api", ok: bad.is_empty(), detail: bad.join("; "), trace: tr }
 }
 
 /// a panic in a hook must surface as a panic JoinError (never as a normal ActorResult), on_stop must not run after it, pending
@@ -431,34 +436,38 @@ fn blocking_timeout() -> Out {
     let rt = tokio::runtime::Builder::new_multi_thread().worker_threads(2).enable_all().build().unwrap();
     let log = new_log();
     let (r, h) = rt.block_on(async { spawn_with_mailbox_capacity::<Probe>(args(&log), 1) });
-    let mut ok: Result<(), String> = Ok(());
+    let mut bad: Vec<String> = Vec::new();
     rt.block_on(async { r.tell(Msg { id: 1, sleep_ms: 1500 }).await.unwrap(); tokio::time::sleep(Duration::from_millis(100)).await; r.tell(Msg { id: 2, sleep_ms: 0 }).await.unwrap(); });
     let c0 = dl();
     let r2 = r.clone();
     let t0 = std::time::Instant::now();
-    let (a, ea, b, eb) = std::thread::spawn(move || {
+    let (a, ea, b, eb, c0b, c) = std::thread::spawn(move || {
         let a = r2.blocking_tell(Msg { id: 3, sleep_ms: 0 }, Some(Duration::from_millis(100))); let ea = t0.elapsed();
         let b = r2.blocking_ask(Msg { id: 4, sleep_ms: 0 }, Some(Duration::from_millis(100))); let eb = t0.elapsed();
-        (a, ea, b, eb)
+        let c0b = dl();
+        // the deprecated alias IGNORES its timeout: on the still-full mailbox it waits for room instead of timing out
+        #[allow(deprecated)] let c = r2.tell_blocking(Msg { id: 7, sleep_ms: 0 }, Some(Duration::from_millis(100)));
+        (a, ea, b, eb, c0b, c)
     }).join().unwrap();
-    if !matches!(a, Err(rsactor::Error::Timeout { .. })) { ok = Err(format!("blocking_tell with timeout on a full mailbox returned {a:?}")); }
-    if ok.is_ok() && !matches!(b, Err(rsactor::Error::Timeout { .. })) { ok = Err(format!("blocking_ask with timeout on a full mailbox returned {b:?}")); }
-    if ok.is_ok() && (ea < Duration::from_millis(100) || eb > Duration::from_millis(1200)) { ok = Err(format!("blocking timeouts returned after {ea:?} / {eb:?} (deadlines 100ms each)")); }
-    if ok.is_ok() && dl_enabled() && dl() != c0 + 2 { ok = Err(format!("blocking timeouts recorded {} dead letters, expected 2", dl() - c0)); }
+    if !matches!(c, Ok(())) { bad.push(format!("[C17] tell_blocking (deprecated alias, must ignore its timeout) on a full mailbox returned {c:?}")); }
+    if !matches!(a, Err(rsactor::Error::Timeout { .. })) { bad.push(format!("[C17,C10] blocking_tell with timeout on a full mailbox returned {a:?}")); }
+    if !matches!(b, Err(rsactor::Error::Timeout { .. })) { bad.push(format!("[C17,C10] blocking_ask with timeout on a full mailbox returned {b:?}")); }
+    if ea < Duration::from_millis(100) || eb > Duration::from_millis(1200) { bad.push(format!("[C17,C10] blocking timeouts returned after {ea:?} / {eb:?} (deadlines 100ms each)")); }
+    if dl_enabled() && c0b != c0 + 2 { bad.push(format!("[C13,C17] blocking timeouts recorded {} dead letters, expected 2", c0b - c0)); }
     // callable from inside a runtime context without panicking
     let r3 = r.clone();
     let inside = std::panic::catch_unwind(std::panic::AssertUnwindSafe(|| rt.block_on(async { r3.blocking_tell(Msg { id: 5, sleep_ms: 0 }, Some(Duration::from_millis(3000))) })));
-    match inside { Ok(Ok(())) => {}, Ok(Err(e)) => if ok.is_ok() { ok = Err(format!("blocking_tell(Some) inside a runtime context failed: {e:?}")) }, Err(_) => if ok.is_ok() { ok = Err("blocking_tell(Some) panicked inside a runtime context".into()) } }
+    match inside { Ok(Ok(())) => {}, Ok(Err(e)) => bad.push(format!("[C17] blocking_tell(Some) inside a runtime context failed: {e:?}")), Err(_) => bad.push("[C17] blocking_tell(Some) panicked inside a runtime context".into()) }
     std::thread::sleep(Duration::from_millis(400));
     rt.block_on(async { r.stop().await.unwrap(); let _ = join(h).await; });
     let c1 = dl();
     let r4 = r.clone();
     let e = std::thread::spawn(move || r4.blocking_tell(Msg { id: 6, sleep_ms: 0 }, Some(Duration::from_millis(500)))).join().unwrap();
-    if ok.is_ok() && !matches!(e, Err(rsactor::Error::Send { .. })) { ok = Err(format!("blocking_tell(Some) to a stopped actor returned {e:?}")); }
-    if ok.is_ok() && dl_enabled() && dl() != c1 + 1 { ok = Err(format!("blocking_tell(Some) to a stopped actor recorded {} dead letters, expected 1", dl() - c1)); }
+    if !matches!(e, Err(rsactor::Error::Send { .. })) { bad.push(format!("[C17] blocking_tell(Some) to a stopped actor returned {e:?}")); }
+    if dl_enabled() && dl() != c1 + 1 { bad.push(format!("[C13,C17] blocking_tell(Some) to a stopped actor recorded {} dead letters, expected 1", dl() - c1)); }
     let tr = trace(&log);
-    if ok.is_ok() && handled(&tr) != vec![1, 2, 5] { ok = Err(format!("a blocking send that reported Timeout was delivered anyway (or an accepted one was lost): handled {:?}, expected [1, 2, 5]", handled(&tr))); }
-    Out { name: "blocking_timeout", ok: ok.is_ok(), detail: ok.err().unwrap_or_default(), trace: tr }
+    if handled(&tr) != vec![1, 2, 7, 5] { bad.push(format!("[C01,C17,C10] a blocking send that reported Timeout was delivered anyway (or an accepted one was lost): handled {:?}, expected [1, 2, 7, 5]", handled(&tr))); }
+    Out { name: "blocking_timeout", ok: bad.is_empty(), detail: bad.join("; "), trace: tr }
 }
 
 #[cfg(feature = "metrics")]
